@@ -8,7 +8,7 @@
    Definitions + proofs (glue file; nothing here changes a model). *)
 From Coq Require Import NArith ZArith List Bool Lia Arith.
 From Coq Require Import ZifyBool ZifyN ZifyNat.
-From JLS Require Import Generated CrcDefs Spec Format FormatProofs WmRaw WmCore WmFsr WmProofs
+From JLS Require Import Generated CrcDefs Spec Format FormatProofs WmRaw WmCore WmTs WmFsr WriterModel WmProofs
   PyramidModel PyramidProofs RefineLog RefineFsr RefinePyr.
 Import ListNotations.
 Local Open Scope N_scope.
@@ -573,3 +573,18 @@ Proof.
   split; [destruct Rbok as (((_ & _ & Hf) & _) & _); exact Hf|]. split; [exact Rbok|].
   intros L HL. apply Rheads. exact HL.
 Qed.
+
+(* ------------------------------------------------------------------ the API calls are rf_do *)
+Lemma rf_api_fsr : forall summ1 summN st sig sample_id samples s f,
+  wm_signal_validate_typed st sig JLS_SIGNAL_TYPE_FSR = (0, Some s) -> wm_sg_fsr s = Some f ->
+  let x' := rf_do summ1 summN (wm_sg_def s) {| wm_fx_base := wm_st_base st; wm_fx_tk := wm_sg_tk_fsr s; wm_fx_fsr := f |} (RfData sample_id samples) in
+  wm_api_fsr summ1 summN st sig sample_id samples =
+  (wm_put_sig st (wm_fx_base x') (wm_sg_set_fsr s (wm_fx_tk x') (Some (wm_fx_fsr x'))), 0).
+Proof. intros summ1 summN st sig sample_id samples s f Hv Hf x'. unfold wm_api_fsr. rewrite Hv, Hf. reflexivity. Qed.
+
+Lemma rf_api_omit : forall summ1 summN st sig en s f,
+  wm_signal_validate_typed st sig JLS_SIGNAL_TYPE_FSR = (0, Some s) -> wm_sg_fsr s = Some f ->
+  let x' := rf_do summ1 summN (wm_sg_def s) {| wm_fx_base := wm_st_base st; wm_fx_tk := wm_sg_tk_fsr s; wm_fx_fsr := f |} (RfOmit en) in
+  wm_api_fsr_omit_data st sig en =
+  (wm_put_sig st (wm_fx_base x') (wm_sg_set_fsr s (wm_fx_tk x') (Some (wm_fx_fsr x'))), 0).
+Proof. intros summ1 summN st sig en s f Hv Hf x'. unfold wm_api_fsr_omit_data. rewrite Hv, Hf. reflexivity. Qed.
